@@ -1,11 +1,14 @@
 """C12 — numeric expressions evaluate as arithmetic; comparisons use the stated tolerance; print/re-read."""
+import concurrent.futures
 import itertools
 import json
 import math
 import random
+import time
 
-from ..common import (Report, cbool, chex, clist, cstr, decide, load_findings, run_case_shards, run_impl,
+from ..common import (NCPU, Report, cbool, chex, clist, cstr, decide, load_findings, run_case_shards, run_impl,
                       standard_proof_part, write_replay)
+from .. import c12_actions as ACT
 
 PROP = "C12"
 FUNCS = [["x", []], ["y", []], ["load", ["?t"]], ["dist", ["?a", "?b"]]]
@@ -97,6 +100,10 @@ def hx(v):
 
 # ------------------------------------------------------------------ generators
 GRID = [-1.5, 0.0, 0.5, 3.0]
+# value classes sent through every comparison: infinities, NaN, +0/-0, the smallest subnormal and a larger one, the
+# smallest normal, 1, 1e308 and the largest finite value of either sign
+SPECIALS = [math.inf, -math.inf, math.nan, 0.0, -0.0, 1.0, 5e-324, -5e-324, 1e-310, 2.2250738585072014e-308,
+            1e308, -1e308, 1.7976931348623157e308, -1.7976931348623157e308]
 
 
 def state_entries(val):
@@ -246,13 +253,16 @@ def gen_pairs(rng, eps, tier):
                                     l, r = ["bin", "*", ["fl", "x", []], num("1")], ["fl", "load", ["t1"]]
                                 cases.append(mk("tolerance-pair", "(%s %s %s)" % (c, text(l), text(r)), val, ["cmp", c, l, r],
                                                 pair={"x": hx(x), "y": hx(y), "k": k, "mag": M}))
-    # infinities, NaN, zeros
-    specials = [math.inf, -math.inf, math.nan, 0.0, -0.0, 1.0, 5e-324]
-    for x in specials:
-        for y in specials:
-            for c in (list(CMPS) if tier == "thorough" else ["=", "<=", ">"]):
-                val = {("x", ()): x, ("y", ()): y}
-                cases.append(mk("special-values", "(%s (x) (y))" % c, val, ["cmp", c, ["fl", "x", []], ["fl", "y", []]]))
+    # infinities, NaN, both zeros, subnormals, the smallest normal, the largest finite values: every pair through every
+    # comparison (thorough), a random third of the table per configuration (quick)
+    specials = SPECIALS
+    table = [(x, y, c) for x in specials for y in specials for c in CMPS]
+    if tier == "quick":
+        table = rng.sample(table, 110) + [(x, y, "=") for x, y in ((0.0, -0.0), (5e-324, 0.0), (1e308, -1e308), (math.inf, math.inf))]
+    for x, y, c in table:
+        val = {("x", ()): x, ("y", ()): y}
+        cases.append(mk("special-values", "(%s (x) (y))" % c, val, ["cmp", c, ["fl", "x", []], ["fl", "y", []]]))
+    stats["special_pairs"] = len(table)
     return cases, stats
 
 
@@ -330,8 +340,8 @@ def build_inputs(rng, tier, configs_info):
     if tier == "quick":
         small = [c for c in exh if c["kind"] != "exhaustive-depth2"]
         big = [c for c in exh if c["kind"] == "exhaustive-depth2"]
-        exh = small + rng.sample(big, min(len(big), 2500))
-        meta["exhaustive"]["quick_sample_of_depth2"] = min(len(big), 2500)
+        exh = small + rng.sample(big, min(len(big), 1200))
+        meta["exhaustive"]["quick_sample_of_depth2"] = min(len(big), 1200)
     for i, c in enumerate(exh):
         c["env"] = configs_info[i % ncfg][0]
     inputs += exh
@@ -340,15 +350,19 @@ def build_inputs(rng, tier, configs_info):
         c["env"] = configs_info[i % ncfg][0]
     inputs += rnd
     meta["pairs"] = {}
+    other_cfg = 1 + rng.randrange(max(1, ncfg - 1))
     for env, eps, digits in configs_info:
         ps, st = gen_pairs(rng, eps, tier)
-        if tier == "quick" and len(ps) > 500:
-            # quick tier: a random half of the pairs per configuration (all kinds stay represented; thorough keeps all)
-            keep = set(rng.sample(range(len(ps)), 500))
+        if tier == "quick" and len(ps) > 260:
+            # quick tier: a random part of the pairs per configuration (all kinds stay represented; thorough keeps all)
+            keep = set(rng.sample(range(len(ps)), 260))
             ps = [c for j, c in enumerate(ps) if j in keep or c["kind"] != "tolerance-pair"]
-        pr = gen_print(rng, digits, 25 if tier == "quick" else 150)
-        asg = gen_assign(rng, 60 if tier == "quick" else 300)
-        mal = gen_malformed(rng)
+        pr = gen_print(rng, digits, 12 if tier == "quick" else 150)
+        asg = gen_assign(rng, 40 if tier == "quick" else 300)
+        # arity and the other malformed forms do not depend on the settings: quick runs them under the default setting and
+        # one other (by seed), thorough under every setting
+        cfg_pos = [e for e, _, _ in configs_info].index(env)
+        mal = gen_malformed(rng) if (tier != "quick" or cfg_pos in (0, other_cfg)) else []
         for c in ps + pr + asg + mal:
             c["env"] = env
         inputs += ps + pr + asg + mal
@@ -421,54 +435,79 @@ def case_lit(inp, res):
                obs, coq_expect(inp["x"])))
 
 
-def run(args):
-    rep = Report(PROP, args.tier, args.seed)
-    standard_proof_part(rep, PROP)
-    rng = random.Random(args.seed * 104729 + 12)
-    configs = CONFIGS_QUICK if args.tier == "quick" else CONFIGS_THOROUGH
-    if args.replay:
-        data = json.load(open(args.replay))
-        inputs = [data["input"]["case"]]
-        meta = {}
-        configs = [inputs[0].get("env", {})]
-    # what the implementation makes of each environment setting
-    configs_info = []
-    impl_configs = []
-    for env in configs:
-        c = run_impl([{"op": "c12.config"}], nproc=1, env_extra=env)[0]
-        impl_configs.append({"env": env, "EPSILON": c["eps"], "DEFAULT_DIGITS": c["digits"]})
-        eps, digits = stated_config(env)
-        configs_info.append((env, eps, digits))
-    if not args.replay:
+def _rename_replays(rep, first, prefix):
+    """decide() numbers its replay files from 0 on every call: give those of one family their own names"""
+    import os
+    for k in range(first, len(rep.violations)):
+        path, concrete = rep.violations[k]
+        newp = path.with_name(prefix + path.name)
+        try:
+            data = json.loads(path.read_text())
+            data["replay_cmd"] = "./check %s --replay %s" % (PROP, newp)
+            newp.write_text(json.dumps(data, indent=1, default=str))
+            os.unlink(path)
+            rep.violations[k] = (newp, concrete)
+        except OSError:
+            pass
+
+
+def run_expressions(rep, args, rng, configs, replay_case, laps):
+    """first family: one expression / comparison / assignment per case, under the EPSILON / NUMERIC_PRECISION settings"""
+    t0 = time.time()
+    configs_info = [(env,) + stated_config(env) for env in configs]
+    if replay_case is not None:
+        inputs, meta = [replay_case], {}
+    else:
         inputs, meta = build_inputs(rng, args.tier, configs_info)
-    # run the implementation, one batch of worker processes per environment
+    laps["generate_s"] = round(time.time() - t0, 1)
+    t0 = time.time()
+    # run the implementation: one batch of worker processes per environment setting, the batches side by side
     results = [None] * len(inputs)
-    for env, _, _ in configs_info:
+    nproc = max(1, NCPU // max(1, min(len(configs_info), 4)))
+
+    def one_env(env):
         idx = [i for i, c in enumerate(inputs) if c["env"] == env and "seq" not in c]
         jobs = [{"op": "c12.run_case", "text": inputs[i]["text"], "funcs": FUNCS, "state": inputs[i]["state"]} for i in idx]
-        for i, r in zip(idx, run_impl(jobs, env_extra=env)):
-            results[i] = r
         # sequences: one tree, several states in a row (each position is judged as its own case)
         seqs = {}
         for i, c in enumerate(inputs):
             if c["env"] == env and "seq" in c:
                 seqs.setdefault(c["seq"][0], []).append(i)
-        sjobs, sidx = [], []
+        sidx = []
         for sid, members in seqs.items():
             members.sort(key=lambda i: inputs[i]["seq"][1])
-            sjobs.append({"op": "c12.run_sequence", "text": inputs[members[0]]["text"], "funcs": FUNCS,
-                          "states": [inputs[i]["state"] for i in members]})
+            jobs.append({"op": "c12.run_sequence", "text": inputs[members[0]]["text"], "funcs": FUNCS,
+                         "states": [inputs[i]["state"] for i in members]})
             sidx.append(members)
-        for members, rs in zip(sidx, run_impl(sjobs, env_extra=env)):
-            for i, r in zip(members, rs):
+        jobs.append({"op": "c12.config"})
+        out = run_impl(jobs, env_extra=env, nproc=min(nproc, max(1, len(jobs) // 150)))
+        return idx, sidx, out
+
+    impl_configs = []
+    with concurrent.futures.ThreadPoolExecutor(max_workers=4) as ex:
+        for (env, _, _), (idx, sidx, out) in zip(configs_info, ex.map(one_env, [c[0] for c in configs_info])):
+            for i, r in zip(idx, out[:len(idx)]):
                 results[i] = r
+            for members, rs in zip(sidx, out[len(idx):len(idx) + len(sidx)]):
+                for i, r in zip(members, rs):
+                    results[i] = r
+            c = out[-1]
+            impl_configs.append({"env": env, "EPSILON": c["eps"], "DEFAULT_DIGITS": c["digits"]})
+    laps["implementation_s"] = round(time.time() - t0, 1)
+    t0 = time.time()
     cases = []
     for inp, res in zip(inputs, results):
         cases.append({"lit": case_lit(inp, res), "input": {"case": inp, "implementation": res},
                       "nontrivial": inp["nontrivial"], "witness_of": None})
     verdicts, info = run_case_shards(PROP, "Corr.C12", [c["lit"] for c in cases], shard_size=150,
                                      header_extra=HEADER)
+    laps["coq_cases_s"] = round(time.time() - t0, 1)
+    laps["case_literal_bytes"] = sum(len(c["lit"]) for c in cases)
+    t0 = time.time()
+    first = len(rep.violations)
     decide(rep, PROP, "Corr.C12", cases, verdicts, info, explain_expr="explain %s", header_extra=HEADER)
+    _rename_replays(rep, first, "expr_")
+    laps["decide_s"] = round(time.time() - t0, 1)
 
     cov = rep.coverage
     kinds, outcomes, cmp_truth, xs = {}, {}, {}, {}
@@ -492,21 +531,138 @@ def run(args):
     cov["configurations"] = [{"env": e, "stated_EPSILON": hx(eps), "stated_DIGITS": d} for e, eps, d in configs_info]
     cov["implementation_configurations"] = impl_configs
     cov["generator"] = meta
+    cov["samples"] = [c["input"]["case"] for c in cases[:2]] + [c["input"]["case"] for c in cases[len(cases) // 2: len(cases) // 2 + 2]] + \
+                     [c["input"]["case"] for c in cases[-2:]]
+
+
+def run_actions(rep, args, rng, replay_input, laps):
+    """second family: actions with several numeric effects reading each other's targets (harness/c12_actions.py), judged
+    by the shared execution model and spec through Corr.Core"""
+    t0 = time.time()
+    if replay_input is not None:
+        worlds = [replay_input["world"]]
+        hashseeds = [replay_input.get("hashseed", 0)]
+    else:
+        worlds = ACT.gen_worlds(rng, args.tier)
+        hashseeds = [0, 1 + args.seed % 97] if args.tier == "quick" else [0, 1, 2, 3]
+    all_cases, all_verdicts = [], ""
+    info_total = {"shards": 0, "shard_errors": [], "cmd": ""}
+    stats = {"worlds": len(worlds), "probes": 0, "steps": 0, "applicable": 0, "refused": 0, "raised": 0, "second_applications": 0,
+             "forced_numeric_orders": 0, "forced_group_orders": 0, "shapes": {}, "kinds": {}, "modes": {}, "antecedents": {},
+             "preconditions": {}, "literal_bytes": 0, "hash_seeds": hashseeds}
+    changed_inputs = []
+    for hk, hs in enumerate(hashseeds):
+        natural_only = hk > 0 and replay_input is None
+        jobs = [ACT.job_of(w, natural_only) for w in worlds]
+        results = run_impl(jobs, hashseed=hs, nproc=min(NCPU, max(1, len(jobs) // 8)))
+        lits, units, recs = [], [], []
+        for w, j, r in zip(worlds, jobs, results):
+            if "raised" in r:
+                raise RuntimeError("implementation driver failed: %r" % (r,))
+            lit, u, rc = ACT.world_literal(w, j, r)
+            lits.append(lit)
+            units.append(u)
+            for kind, pi, si, single in rc:
+                step = r["probes"][pi]["steps"][si] if pi is not None else None
+                inp = {"world": dict(w, probes=[j["probes"][pi]] if pi is not None else []), "unit": kind, "step": si,
+                       "hashseed": hs, "implementation": step if step is not None else {k: r.get(k) for k in ("vocab", "parse_raised")}}
+                nontrivial = kind == "succ" and "value" in step["succ"]
+                recs.append({"lit": single, "input": inp, "nontrivial": nontrivial, "witness_of": None})
+            for pi, pr in enumerate(r.get("probes", [])):
+                for si, st in enumerate(pr["steps"]):
+                    if not st["input_unchanged"]:
+                        changed_inputs.append({"world": dict(w, probes=[j["probes"][pi]]), "step": si, "hashseed": hs, "implementation": st})
+            if hk == 0:
+                for k_, d_ in (("shape", "shapes"), ("kind", "kinds"), ("mode", "modes"), ("antecedent", "antecedents"),
+                               ("precondition", "preconditions")):
+                    v = w["info"].get(k_)
+                    if v is not None:
+                        stats[d_][v] = stats[d_].get(v, 0) + 1
+            for pr_in, pr in zip(j["probes"], r.get("probes", [])):
+                stats["probes"] += 1
+                stats["forced_numeric_orders"] += 1 if pr_in["num_order"] is not None else 0
+                stats["forced_group_orders"] += 1 if pr_in["group_seed"] else 0
+                for si, st in enumerate(pr["steps"]):
+                    stats["steps"] += 1
+                    stats["second_applications"] += 1 if si else 0
+                    if "value" in st["succ"]:
+                        stats["applicable"] += 1
+                    elif st["app"].get("value") is False:
+                        stats["refused"] += 1
+                    else:
+                        stats["raised"] += 1
+        stats["literal_bytes"] += sum(len(x) for x in lits)
+        verdicts, info = run_case_shards(PROP + "/act", "Corr.Core", lits, shard_size=8, units=units, header_extra=ACT.HEADER,
+                                         max_bytes=90_000)
+        info_total["shards"] += info["shards"]
+        info_total["shard_errors"] += info["shard_errors"]
+        info_total["cmd"] = info["cmd"]
+        all_cases += recs
+        all_verdicts += verdicts
+    laps["actions_s"] = round(time.time() - t0, 1)
+    vc1, dn1 = dict(rep.coverage.get("verdict_counts", {})), rep.coverage.get("distinct_nontrivial", 0)
+    first = len(rep.violations)
+    decide(rep, PROP, "Corr.Core", all_cases, all_verdicts, info_total, explain_expr="explain %s", header_extra=ACT.HEADER,
+           max_replays=5)
+    _rename_replays(rep, first, "act_")
+    vc2 = rep.coverage.get("verdict_counts", {})
+    rep.coverage["verdict_counts"] = {k: vc1.get(k, 0) + vc2.get(k, 0) for k in set(vc1) | set(vc2)}
+    rep.coverage["verdict_counts_actions"] = vc2
+    rep.coverage["distinct_nontrivial"] = dn1 + rep.coverage.get("distinct_nontrivial", 0)
+    for k, ci in enumerate(changed_inputs[:3]):
+        p = write_replay(PROP, "act_input_changed_%d" % k, {"kind": "input", "why": "Operator.apply changed the state it was given", "input": ci})
+        rep.violation(p, True)
+    stats["inputs_changed_by_apply"] = len(changed_inputs)
+    rep.coverage["actions_with_several_numeric_effects"] = stats
+    if worlds:
+        rep.coverage.setdefault("samples", []).append({"domain": worlds[0]["domain_text"], "probe": worlds[0]["probes"][:1]})
+
+
+def run(args):
+    rep = Report(PROP, args.tier, args.seed)
+    standard_proof_part(rep, PROP)
+    rng = random.Random(args.seed * 104729 + 12)
+    rng_act = random.Random(args.seed * 7919 + 1212)
+    configs = CONFIGS_QUICK if args.tier == "quick" else CONFIGS_THOROUGH
+    laps = {}
+    replay_case = replay_act = None
+    if args.replay:
+        data = json.load(open(args.replay))
+        if "world" in data["input"]:
+            replay_act = data["input"]
+        else:
+            replay_case = data["input"]["case"]
+            configs = [replay_case.get("env", {})]
+    if replay_act is None:
+        run_expressions(rep, args, rng, configs, replay_case, laps)
+    if replay_case is None:
+        run_actions(rep, args, rng_act, replay_act, laps)
+    cov = rep.coverage
+    cov["timing"] = laps
     cov["exhaustive"] = False
     cov["rule"] = ("all expression trees of depth <= 2 over + - * / and the leaves listed in generator.exhaustive (every valuation of the grid "
                    "for depth <= 1, rotating valuations for depth 2); random trees of depth <= 4 with dyadic/decimal/extreme constants and "
                    "five fluents (some missing from the state), alone or as a side of a comparison / right-hand side of an assignment; value "
                    "pairs 0, 0.5, 1, 2 tolerances apart and one ulp either side of each, both directions and signs, at magnitudes 1e-3..1e9 "
-                   "(1e15 thorough), all six comparison operators, plus infinities/NaN/zeros; assignments; malformed forms (arity != 2 ...) "
+                   "(1e15 thorough), all six comparison operators, plus infinities/NaN/zeros/subnormals/extremes; assignments; malformed forms (arity != 2 ...) "
                    "that must be rejected; constants stressing the fixed-point rounding (exact ties at the configured digits, one ulp "
                    "either side, decimal pseudo-ties, huge/tiny/special values); each under the EPSILON/NUMERIC_PRECISION settings listed "
-                   "in configurations (implementation run in subprocesses with those environment variables).  Non-trivial: the expression "
-                   "contains an operator, comparison or assignment, or is a print-stress constant or malformed form; distinct by input hash.")
-    cov["samples"] = [c["input"]["case"] for c in cases[:2]] + [c["input"]["case"] for c in cases[len(cases) // 2: len(cases) // 2 + 2]] + \
-                     [c["input"]["case"] for c in cases[-2:]]
+                   "in configurations (implementation run in subprocesses with those environment variables).  Second family "
+                   "(actions_with_several_numeric_effects): one-action domains whose 2-4 numeric effects read each other's targets "
+                   "(symmetric and asymmetric pairs, closed/open chains, an effect reading its own target, random right-hand sides; 0-ary and "
+                   "parametrised fluents; all in the unconditional group, split over the unconditional group and one or two `when`s with "
+                   "literal or numeric antecedents on a target, mutually exclusive whens writing one target, a forall-when), applied through "
+                   "Operator.apply to random states (non-dyadic values, magnitudes 1e-7..1e15, absent fluents) with the effect groups and the "
+                   "numeric effects inside every group visited in the library's own, sorted, reversed and random forced orders, under "
+                   "several PYTHONHASHSEEDs, and the same Operator object applied again to its own successor; every successor fluent "
+                   "compared bit-exactly with the shared execution model and with the PDDL successor (right-hand sides read in the "
+                   "pre-state).  Non-trivial: the expression contains an operator, comparison or assignment, or is a print-stress constant "
+                   "or malformed form; for the second family a successor unit of an applicable call; distinct by input hash.")
     cov["explanation"] = ("theorems C12_* (Props/C12.v) proved for all inputs and all eps/rel_tol/digits on the model; model tied to the "
                           "implementation by the cases above: model vs implementation (bit-equal floats, equal texts) and implementation "
-                          "vs the spec oracle (Spec/Arith.v evaluated in Coq on the generator's abstract expression)")
+                          "vs the spec oracle (Spec/Arith.v evaluated in Coq on the generator's abstract expression; Spec/Pddl.v successor "
+                          "for the actions with several numeric effects)")
     rep.assumptions = ["fluent values and constants are binary64 floats; float(str) of CPython is trusted (numerals cross as hex)",
-                       "ASCII expression text; heads of compound forms are atoms"]
+                       "ASCII expression text; heads of compound forms are atoms",
+                       "actions with several numeric effects: the effects that fire together have pairwise distinct targets"]
     return rep.finish()
